@@ -22,7 +22,7 @@
    The pattern is the rune list Parse builds with `for _, r := range pattern` (so 0 <= r).
    Oracles (Section variables; the harness ships their values on the runes of the case):
      is_word_char = syntax.IsWordChar, to_lower = unicode.ToLower,
-     is_cased c = unicode.IsLower c || unicode.IsUpper c,
+     is_cased c = (unicode.SimpleFold c != c)   (the test of nodeWithCaseConversion),
      participates = participatesInCaseConversion,
      ci_single c = the set {c} closed under case equivalences is a singleton,
      ci_set_id c = an identity of that set (equal ids <-> CharSet.Equals).
